@@ -35,18 +35,31 @@ def _entry_rules(rep: Report, cls, cb_attrs: dict, flag: str = "self.is_stopped"
             continue
         flag_sets = [s for s in assigns_to(m, flag) if assigned_const(s, True)]
         n_deliv = 0
-        for s in sites(m):
+        # deliveries: `self._on_x(...)` in the entry point itself, or -- when entry points share a helper that is handed the callback
+        # (`self._terminate(self._on_error, error)`) -- the helper's call of that parameter, judged in the helper's own context
+        found = [(s, s.node.func.attr, m) for s in sites(m) if isinstance(s.node, ast.Call) and isinstance(s.node.func, ast.Attribute)
+                 and dotted(s.node.func.value) == "self" and s.node.func.attr in deliver]
+        if not found:
+            for s in sites(m):
+                n = s.node
+                if isinstance(n, ast.Call) and isinstance(n.func, ast.Attribute) and dotted(n.func.value) == "self" and n.func.attr not in deliver:
+                    hlp = cls.child(n.func.attr)
+                    idx = next((i for i, a in enumerate(n.args) if isinstance(a, ast.Attribute) and dotted(a.value) == "self" and a.attr in deliver), None)
+                    if hlp is not None and hlp.is_func and idx is not None and len(hlp.params) > idx + 1 and not s.ctx.guards:
+                        pname = hlp.params[idx + 1]
+                        found += [(x, n.args[idx].attr, hlp) for x in sites(hlp) if isinstance(x.node, ast.Call) and isinstance(x.node.func, ast.Name)
+                                  and x.node.func.id == pname]
+        for s, attr_, own in found:
             n = s.node
-            if not (isinstance(n, ast.Call) and isinstance(n.func, ast.Attribute)
-                    and dotted(n.func.value) == "self" and n.func.attr in deliver):
-                continue
+            if own is not m:
+                flag_sets = [x for x in assigns_to(own, flag) if assigned_const(x, True)]
             n_deliv += 1
-            c = f"{mname}: {short(n)}"
+            c = f"{mname}: {short(n)}" + ("" if own is m else f" (in {own.name}, handed self.{attr_})")
             rep.ob("R3-guard", m, c, has_guard(s.ctx, flag, False),
                    f"delivery `{short(n)}` is not dominated by `not {flag}`: a notification after the terminal "
                    f"one (or after dispose) would reach the subscriber")
-            rep.ob("R3-kind", m, c, deliver[n.func.attr] == slot,
-                   f"`{mname}` delivers through `{n.func.attr}` (slot {deliver[n.func.attr]}), not its own kind")
+            rep.ob("R3-kind", m, c, deliver[attr_] == slot,
+                   f"`{mname}` delivers through `{attr_}` (slot {deliver[attr_]}), not its own kind")
             if slot != "on_next":
                 ok = any(dominates(fs, s) for fs in flag_sets)
                 rep.ob("R3-flag-first", m, c, ok,
